@@ -26,8 +26,8 @@ func init() {
 
 var profC18 = Profile{
 	MaxBars: 8, MinBars: 1, MaxSteps: 45, Refresh: []string{"manual", "manual", "manual", "autoinj", "autort"}, QLens: []int{-1},
-	Pop: 100, Queue: 15, Prio: true, PrioOnFinished: true, Ext: 30, Text: 2, Rm: 20, NoPop: 25, AbortW: 3, TicksW: 10,
-	Pty: 30, PtyRowsMax: 12, Fillers: []string{"tag", "bar"}, LateAdd: true, OnCompleteFill: 30,
+	Pop: 100, Queue: 15, Prio: true, PrioOnFinished: true, PrioExtreme: true, Ext: 30, Text: 2, Rm: 20, NoPop: 25, AbortW: 3, TicksW: 10,
+	Pty: 30, PtyRowsMax: 12, Fillers: []string{"tag", "bar"}, LateAdd: true, OnCompleteFill: 30, PrioMidRender: 20, AddTick: 10,
 }
 
 func genC18(t *rapid.T) interface{} {
@@ -66,7 +66,7 @@ func runC18(ci interface{}) Result {
 		dumpHang(sc, tr)
 		return r
 	}
-	r.Classes = append(r.Classes, "refresh:"+sc.Cfg.Refresh)
+	r.Classes = append(append(r.Classes, "refresh:"+sc.Cfg.Refresh), featureClasses(sc)...)
 	end, cancelled, ok := engine.EndState(sc)
 	if !ok || cancelled {
 		return r
